@@ -102,6 +102,7 @@ UNITS.update({
     "U-NTT-CORE": {
         "backend": "verus",
         "template": "contracts/ntt_core.vc",
+        "search": "search-ntt",
         "trusted": ["Verus 0.2026.09.13 / Z3; vstd (slices, arithmetic lemmas)",
                     "Felt operator contracts (Add, Sub, Mul; discharged by Kani in U-FELT)",
                     "generic trait text instantiated at Self := Felt only (D1)"],
@@ -113,6 +114,7 @@ UNITS.update({
     "U-NTT-POLY": {
         "backend": "verus",
         "template": "contracts/ntt_poly.vc",
+        "search": "search-ntt",
         "trusted": ["Verus 0.2026.09.13 / Z3; vstd",
                     "felt_fft / felt_ifft contracts (discharged in U-NTT-CORE)",
                     "table_facts about FELT_BITREVERSED_POWERS[_INVERSE]_1024 and FELT_NINV_* (discharged by Kani in U-TAB: tab_wf, tab_square_relations, tab_inverse_relation, tab_ninv)",
@@ -139,6 +141,7 @@ UNITS.update({
     "U-PK": {
         "backend": "verus",
         "template": "contracts/pk.vc",
+        "search": "search-pk",
         "trusted": ["Verus 0.2026.09.13 / Z3; vstd",
                     "model of bit_vec::BitVec (from_bytes, push, to_bytes, len, index) and of itertools chunks over its iterator (vx_chunk / vx_nchunks)",
                     "usize::ilog2 = floor(log2) (assume_specification)", "Felt::new / value contracts (U-FELT)", "Polynomial::new (U-NTT-POLY)"],
